@@ -23,3 +23,5 @@ mod c02_request;
 mod c14_cors;
 #[cfg(kani)]
 mod c07_gates;
+#[cfg(kani)]
+mod c17_sse;
